@@ -13,11 +13,11 @@ Theorem C13_twolevel_step :
          forall T : Z -> Z -> Z,
          (forall k : Z, T 1 k = 1) ->
          (forall m k : Z, 2 <= m -> 1 <= k -> T m k = adv m k + T (m - adv m k) (k - 1) + T (adv m k) k) ->
-         forall (N P bs : Z) (bst : storage),
+         forall (N P bs : Z) (bst : Actions.storage),
          1 <= N ->
          1 <= P ->
          0 <= bs ->
-         bst = RAM \/ bst = DISK ->
+         bst = Actions.RAM \/ bst = Actions.DISK ->
          forall (d0 : Z) (s : st) (x : xst) (f : nat),
          Inv T N P bs d0 s x -> Good T N P bs bst x (resume adv N P bs bst (S (S (S (S f)))) s).
 Proof. exact (@TLInv.step_ok). Qed.
@@ -34,11 +34,11 @@ Theorem C13_block_total :
          forall T : Z -> Z -> Z,
          (forall k : Z, T 1 k = 1) ->
          (forall m k : Z, 2 <= m -> 1 <= k -> T m k = adv m k + T (m - adv m k) (k - 1) + T (adv m k) k) ->
-         forall (N P bs : Z) (bst : storage),
+         forall (N P bs : Z) (bst : Actions.storage),
          1 <= N ->
          1 <= P ->
          0 <= bs ->
-         bst = RAM \/ bst = DISK ->
+         bst = Actions.RAM \/ bst = Actions.DISK ->
          forall (d0 : Z) (s : st) (x : xst) (n0s : Z),
          Inv T N P bs d0 s x ->
          pcv s = PTBlock n0s -> r_ s = N - n0s -> done x = d0 + T (pend N P n0s - n0s) (S_ bs).
